@@ -5,6 +5,7 @@ package sym
 import (
 	"fmt"
 	"math/bits"
+	"sort"
 	"strconv"
 	"strings"
 )
@@ -517,13 +518,7 @@ func (c *Ctx) Bin(op Op, a, b *Term) *Term {
 		if b.IsConst() && b.Val == 0 {
 			return a
 		}
-		// (x + c1) + c2
-		if b.IsConst() && a.Op == OAdd && a.Args[1].IsConst() {
-			return c.Bin(OAdd, a.Args[0], c.Const(a.Args[1].Val+b.Val, w))
-		}
-		if a.IsConst() { // canonical: const on the right
-			a, b = b, a
-		}
+		return c.linear(a, b, false)
 	case OSub:
 		if b.IsConst() && b.Val == 0 {
 			return a
@@ -531,9 +526,7 @@ func (c *Ctx) Bin(op Op, a, b *Term) *Term {
 		if a == b {
 			return c.Const(0, w)
 		}
-		if b.IsConst() {
-			return c.Bin(OAdd, a, c.Const(-b.Val, w))
-		}
+		return c.linear(a, b, true)
 	case OMul:
 		if a.IsConst() {
 			a, b = b, a
@@ -584,6 +577,81 @@ func (c *Ctx) Bin(op Op, a, b *Term) *Term {
 		}
 	}
 	return c.mk(op, w, 0, a, b)
+}
+
+// linear builds a±b in a canonical linear normal form: sum of atom*coef (atoms
+// ordered by id) plus a constant, so that common atoms cancel syntactically.
+func (c *Ctx) linear(a, b *Term, sub bool) *Term {
+	w := a.W
+	coefs := map[*Term]uint64{}
+	var order []*Term
+	var k uint64
+	var walk func(t *Term, f uint64)
+	walk = func(t *Term, f uint64) {
+		switch {
+		case t.Op == OConst:
+			k += f * t.Val
+		case t.Op == OAdd:
+			walk(t.Args[0], f)
+			walk(t.Args[1], f)
+		case t.Op == OSub:
+			walk(t.Args[0], f)
+			walk(t.Args[1], -f)
+		case t.Op == ONeg:
+			walk(t.Args[0], -f)
+		case t.Op == OMul && t.Args[1].IsConst() && t.Args[0].Op != OAdd && t.Args[0].Op != OSub:
+			walk(t.Args[0], f*t.Args[1].Val)
+		default:
+			if _, ok := coefs[t]; !ok {
+				order = append(order, t)
+			}
+			coefs[t] += f
+		}
+	}
+	walk(a, 1)
+	if sub {
+		walk(b, ^uint64(0))
+	} else {
+		walk(b, 1)
+	}
+	m := mask(w)
+	k &= m
+	sort.Slice(order, func(i, j int) bool { return order[i].ID < order[j].ID })
+	var acc *Term
+	var negs []*Term
+	for _, at := range order {
+		cf := coefs[at] & m
+		if cf == 0 {
+			continue
+		}
+		if cf == m { // -1
+			negs = append(negs, at)
+			continue
+		}
+		term := at
+		if cf != 1 {
+			term = c.mk(OMul, w, 0, at, c.Const(cf, w))
+		}
+		if acc == nil {
+			acc = term
+		} else {
+			acc = c.mk(OAdd, w, 0, acc, term)
+		}
+	}
+	for _, at := range negs {
+		if acc == nil {
+			acc = c.mk(ONeg, w, 0, at)
+		} else {
+			acc = c.mk(OSub, w, 0, acc, at)
+		}
+	}
+	if acc == nil {
+		return c.Const(k, w)
+	}
+	if k != 0 {
+		acc = c.mk(OAdd, w, 0, acc, c.Const(k, w))
+	}
+	return acc
 }
 
 func (c *Ctx) Add(a, b *Term) *Term { return c.Bin(OAdd, a, b) }
